@@ -85,12 +85,26 @@ def search(rep, rel, q, pi, hi):
         mk = origin(defs, mk_node)
     ok = mk is not None and _flat(mk) in (f"min({P}.number_of_nodes(),{H}.number_of_nodes())", f"min(len({P}),len({H}))",
                                          f"min({H}.number_of_nodes(),{P}.number_of_nodes())")
+    def _restricted(e):
+        """the node pool comes out of a separate routine of the class that sees (pattern, host): a restriction of the pattern's nodes whose
+        justification (no host node can match the dropped ones) this rule cannot read - not evidence of a wrong answer, not verified either"""
+        src = origin(defs, e) if isinstance(e, ast.Name) else e
+        return isinstance(src, ast.Call) and isinstance(src.func, ast.Attribute) and isinstance(src.func.value, ast.Name) and src.func.value.id in ("self", "cls") \
+            and {norm(a_) for a_ in src.args} >= {P, H}
+    if not ok and mk is not None and isinstance(mk, ast.Call) and call_name(mk) == "min" and len(mk.args) == 2:
+        a_, b_ = mk.args
+        pool = [x.args[0] for x in (a_, b_) if isinstance(x, ast.Call) and call_name(x) == "len" and x.args]
+        hostside = [x for x in (a_, b_) if _flat(x) in (f"{H}.number_of_nodes()", f"len({H})")]
+        if len(pool) == 1 and len(hostside) == 1 and _restricted(pool[0]):
+            ok = None
     rep.ob("O12.2", "R16", fi, ok, mk if mk is not None else "max_k", "the largest candidate size is min(|pattern|, |host|)")
     # exits of the size loop (outside the inner loops)
     comb = [l for l in walk_local(sl) if isinstance(l, ast.For) and isinstance(l.iter, ast.Call) and call_name(l.iter) == "combinations"]
     rep.need("R16", len(comb), 1, "combinations loop")
     cl = comb[0]
     ok = _flat(cl.iter.args[0]) in (f"{P}.nodes()", f"{P}.nodes", f"{P}", f"list({P}.nodes())") and norm(cl.iter.args[1]) == k
+    if not ok and norm(cl.iter.args[1]) == k and _restricted(cl.iter.args[0]):
+        ok = None
     rep.ob("O12.2", "R16", fi, ok, cl.iter, "every k-subset of the pattern's nodes is a candidate")
     iso_loops = [l for l in walk_local(cl) if isinstance(l, ast.For) and isinstance(l.iter, ast.Call) and call_name(l.iter) in (M.SUB_METHODS | M.ISO_METHODS)]
     rep.need("R2", len(iso_loops), 1, "iso loop")
